@@ -83,6 +83,25 @@ Definition rearrange_strict (zx zy : list Q) (sx sy dx dy : list nat) : bool :=
   let '(w0, ws) := rearrange_waypoints zx zy sx sy dx dy in
   forallb (fun w => distinct_q (fst w) && distinct_q (snd w)) ws.
 
+(* ---------- where rearrange can park: the zone-wide conditions under which every documented call is accepted (Proofs/LibMovesProofs.v) ---------- *)
+Fixpoint asc_qb (l : list Q) : bool :=
+  match l with
+  | a :: r => match r with b :: _ => negb (Qle_bool b a) && asc_qb r | [] => true end
+  | [] => true
+  end.
+Fixpoint gaps6b (l : list Q) : bool :=
+  match l with
+  | a :: r => match r with b :: _ => negb (Qle_bool b (a + 6)) && gaps6b r | [] => true end
+  | [] => true
+  end.
+Definition parking_ok (zx zy : list Q) : bool :=
+  asc_qb (map (parking_x zx) (seq 0 (length zx))) && gaps6b zy.
+Definition rearrange_preconditionsb (zx zy : list Q) (sx sy dx dy : list nat) : bool :=
+  (1 <=? length sx) && (1 <=? length sy) && (length sx =? length dx) && (length sy =? length dy)
+  && sorted_strictb sx && sorted_strictb sy && sorted_strictb dx && sorted_strictb dy
+  && in_rangeb (length zx) sx && in_rangeb (length zy) sy && in_rangeb (length zx) dx && in_rangeb (length zy) dy.
+
+
 (* ---------- comparing a model path list with the paths the implementation played (coordinates up to ==) ---------- *)
 Fixpoint qlist_qeqb (a b : list Q) : bool :=
   match a, b with
